@@ -664,6 +664,10 @@ func (pc *PartitionContext) removeNode(nodeID string) ([]*objects.Allocation, []
 	}
 
 	verifGate("removeNode.afterList", nodeID)
+	// forget the foreign allocations of the node: they are gone with the node and must be counted again
+	// if the node, and the allocations with it, are registered again later
+	pc.removeNodeForeignAllocs(node)
+
 	// unreserve all the apps that were reserved on the node.
 	// The node is not reachable anymore unless you have the pointer.
 	for _, r := range node.GetReservations() {
@@ -683,6 +687,15 @@ func (pc *PartitionContext) removeNode(nodeID string) ([]*objects.Allocation, []
 		zap.String("nodeID", node.NodeID),
 		zap.Stringer("partitionResource", pc.GetTotalPartitionResource()))
 	return released, confirmed
+}
+
+// removeNodeForeignAllocs removes the foreign allocations tracked for the node from the partition.
+func (pc *PartitionContext) removeNodeForeignAllocs(node *objects.Node) {
+	pc.Lock()
+	defer pc.Unlock()
+	for _, alloc := range node.GetForeignAllocations() {
+		delete(pc.foreignAllocs, alloc.GetAllocationKey())
+	}
 }
 
 // removeNodeAllocations removes all allocations that are assigned to a node as part of the node removal. This is not part
